@@ -104,9 +104,11 @@ def run_case(case):
             flow.eval()
             res.labels.append("base:" + case["base"])
             if target == "log_prob":
-                f = lambda Z, C: (copy.deepcopy(flow).log_prob(Z, C),)  # noqa  (fresh copy per evaluation: state must not leak)
+                f = lambda Z, C, o=None: ((o or copy.deepcopy(flow)).log_prob(Z, C),)  # noqa  (fresh copy per evaluation: state must not leak)
+                shared_obj = copy.deepcopy(flow)
             else:
-                f = lambda Z, C: (copy.deepcopy(flow).transform_to_noise(Z, C),)  # noqa
+                f = lambda Z, C, o=None: ((o or copy.deepcopy(flow)).transform_to_noise(Z, C),)  # noqa
+                shared_obj = copy.deepcopy(flow)
         elif target == "inverse":
             with torch.no_grad():
                 try:
@@ -114,9 +116,11 @@ def run_case(case):
                 except Exception:
                     res.inconclusive += 1
                     return res
-            f = lambda Z, C: copy.deepcopy(m).inverse(Z, C)  # noqa
+            f = lambda Z, C, o=None: (o or copy.deepcopy(m)).inverse(Z, C)  # noqa
+            shared_obj = copy.deepcopy(m)
         else:
-            f = lambda Z, C: copy.deepcopy(m)(Z, C)  # noqa
+            f = lambda Z, C, o=None: (o or copy.deepcopy(m))(Z, C)  # noqa
+            shared_obj = copy.deepcopy(m)
         if not bool(torch.isfinite(X).all()):
             res.inconclusive += 1
             return res
@@ -170,15 +174,15 @@ def run_case(case):
 
             f0 = f
 
-            def f(Z, C):  # noqa
+            def f(Z, C, o=None):  # noqa
                 try:
-                    return f0(Z, C)
+                    return f0(Z, C, o)
                 except Exception as e:
                     if type(e).__name__ == "InputOutsideDomain" and target == "inverse":
                         raise _Boundary()
                     raise
             try:
-                return _compare(res, f, full, Xn, Cn, X, ctx, n, cmp, case, b, m)
+                return _compare(res, f, full, Xn, Cn, X, ctx, n, cmp, case, b, m, shared_obj)
             except _Boundary:
                 res.inconclusive += 1   # an image point 1 ulp outside the inverse's box in one of the evaluations
                 return res
@@ -189,7 +193,7 @@ class _Boundary(Exception):
     pass
 
 
-def _compare(res, f, full, Xn, Cn, X, ctx, n, cmp, case, b, m):
+def _compare(res, f, full, Xn, Cn, X, ctx, n, cmp, case, b, m, shared_obj):
     if True:
         if True:
             # (a) rows alone
@@ -206,6 +210,27 @@ def _compare(res, f, full, Xn, Cn, X, ctx, n, cmp, case, b, m):
             ext = f(X, ctx)
             if not cmp(full, [t[:n] for t in ext], "extra-rows appended"):
                 return res
+            # (d) ONE object evaluated with several batch sizes in a row (no fresh copies): earlier batches must not matter
+            if n >= 2:
+                try:
+                    f(X, ctx, shared_obj)
+                    k = 1 + case["perm_seed"] % (n - 1)
+                    p1 = f(Xn[:k], Cn[:k] if Cn is not None else None, shared_obj)
+                    p2 = f(Xn[k:], Cn[k:] if Cn is not None else None, shared_obj)
+                    joined = [torch.cat([u, v], 0) for u, v in zip(p1, p2)]
+                except _Boundary:
+                    raise
+                except Exception as e:
+                    res.fail("batch_dependence", type(shared_obj).__name__, "one object evaluated on batches of %d, %d and %d rows in a row raises %s: %s" % (
+                        X.shape[0], k, n - k, type(e).__name__, str(e)[:150]), what="same-object", target=case["target"])
+                    return res
+                if any(u.shape != v.shape for u, v in zip(full, joined)):
+                    res.fail("batch_dependence", type(shared_obj).__name__, "one object evaluated on batches of %d, %d and %d rows in a row returns shapes %s "
+                             "(expected %s)" % (X.shape[0], k, n - k, [list(u.shape) for u in joined], [list(u.shape) for u in full]),
+                             what="same-object", target=case["target"])
+                    return res
+                if not cmp(full, joined, "same-object sub-batches after a larger batch"):
+                    return res
             r0 = full[0].reshape(n, -1)
             res.nontrivial = bool(((r0[0] - r0[1]).abs() > 1e-3).any()) and not (b.elementwise and not list(m.parameters()))
     return res
